@@ -15,6 +15,8 @@ open(f,'w').write(s)
 PY
 rc=$?
 if [ $rc -ne 0 ]; then git checkout -- .; exit 2; fi
+rm -rf /verif/target/evidence.bak; cp -r /verif/evidence /verif/target/evidence.bak
 cd /verif && "$@"; rc=$?
+rm -rf /verif/evidence; cp -r /verif/target/evidence.bak /verif/evidence
 git -C /repo checkout -- .
 echo "exit=$rc"
